@@ -37,6 +37,10 @@ def gen_case(rng):
         seed=rng.randrange(1000),
         data_seed=rng.randrange(1 << 30),
         two_good=rng.random() < 0.5,     # two features of similar power: folds may disagree on the best one
+        # the best feature is counted at the model's training FDR, the learned scores at the evaluation FDR
+        **rng.choice([dict(), dict(), dict(train_fdr=0.5, test_fdr=0.125), dict(train_fdr=0.125, test_fdr=0.5),
+                      dict(train_fdr=0.5, test_fdr=0.01, signal=1.0), dict(train_fdr=0.5, test_fdr=0.03, signal=1.5),
+                      dict(train_fdr=0.25, test_fdr=0.0625)]),
     )
 
 
@@ -57,7 +61,7 @@ def run_case(chk, case):
         off = 0
         for k in range(case["nfiles"]):
             df = mkdata.make_psm_table(r, n_spectra=case["n_spectra"], max_per_spectrum=case["max_per"], n_feat=2,
-                                       label_enc=case["enc"], optional=("ExpMass",), signal=4.0,
+                                       label_enc=case["enc"], optional=("ExpMass",), signal=case.get("signal", 4.0),
                                        good_feats=(0, 1) if case.get("two_good") else (0,))
             df["rowid"] = np.arange(off, off + len(df))
             df["SpecId"] = [f"f{k}_{i}" for i in range(len(df))]
@@ -74,10 +78,10 @@ def run_case(chk, case):
         sign = good_sign if case["est"] == "good" else -good_sign
         override = case["est"] == "forced-bad"
         run = recest.new_run()
-        model = mokapot.Model(recest.TagProba(sign=sign, run=run), scaler="as-is", train_fdr=THR, max_iter=2,
+        model = mokapot.Model(recest.TagProba(sign=sign, run=run), scaler="as-is", train_fdr=case.get("train_fdr", THR), max_iter=2,
                               override=override, rng=case["seed"])
         try:
-            _, models, scores, descs = mokapot.brew(dss, model, test_fdr=THR, folds=case["folds"], rng=case["seed"])
+            _, models, scores, descs = mokapot.brew(dss, model, test_fdr=case.get("test_fdr", THR), folds=case["folds"], rng=case["seed"])
         except Exception as e:
             msg = f"{type(e).__name__}: {e}"
             if isinstance(e, (IndexError,)) or "No PSMs" in msg or "PSMs were" in msg:
@@ -107,7 +111,7 @@ def run_case(chk, case):
             reqs = []
             for c in feature_cols:
                 for desc_ in (True, False):
-                    reqs.append(req("labels", desc_, Fraction(THR), [[allrows[i][0][c], allrows[i][1]] for i in ids]))
+                    reqs.append(req("labels", desc_, Fraction(case.get("train_fdr", THR)), [[allrows[i][0][c], allrows[i][1]] for i in ids]))
             counts = [sum(1 for x in dec(r_) if x == "1") for r_ in common.driver_batch(reqs)]
             cd, ca = counts[0::2], counts[1::2]
             best = dec(common.driver_batch([req("fbbest", cd, ca)])[0])
@@ -146,7 +150,7 @@ def run_case(chk, case):
                     return
         else:
             model_scores = [[0] * len(df) for df in tabs]
-        reqs = [req("fbpred", Fraction(THR), [[[s, l] for s, l in zip(sc, raw_labels(df))]
+        reqs = [req("fbpred", Fraction(case.get("test_fdr", THR)), [[[s, l] for s, l in zip(sc, raw_labels(df))]
                                               for sc, df in zip(model_scores, tabs)])]
         pred = dec(common.driver_batch(reqs)[0])
         if pred == "reject-label":
@@ -170,6 +174,7 @@ def run_case(chk, case):
         chk.count("est", case["est"]); chk.count("enc", case["enc"]); chk.count("best_low", case["best_low"])
         chk.count("all_trained", all_trained); chk.count("decision", "feature" if decision != "model" else "model")
         chk.count("fmt", case["fmt"]); chk.count("nfiles", case["nfiles"])
+        chk.count("train_fdr/test_fdr", f"{case.get('train_fdr', THR)}/{case.get('test_fdr', THR)}")
         chk.count("folds_agree_on_best_feature", len({m[1] for m in ms}) == 1)
         key = (case["data_seed"], case["enc"], case["best_low"], case["est"], case["folds"])
         chk.case(None, key if (case["est"] != "good" or case["best_low"]) else None,
